@@ -83,6 +83,14 @@ func Go(f func()) {
 	}()
 }
 
+// CurrentTok is the token of the current environment epoch (for harness-side blocking points reached from goroutines
+// of the code under test, e.g. a write to a connection whose peer has stopped reading).
+func CurrentTok() Tok {
+	gmu.Lock()
+	defer gmu.Unlock()
+	return Tok(gepoch)
+}
+
 // TrackBegin registers a harness-side activity (e.g. the goroutine that serves a connection).
 func TrackBegin() Tok {
 	gmu.Lock()
